@@ -152,7 +152,8 @@ def nd_getitem(ex, arr, key, prefer_vec=False):
                 elif step == 0:
                     raise SymRaise("ValueError", "slice step cannot be zero")
                 s, e, st = slice_indices(k, n)
-                ln = slice_len(s, e, st)
+                ln = ex.ctx.canon(slice_len(s, e, st))
+                s = ex.ctx.canon(s) if is_z3(s) else s
                 out_shape.append(ln)
                 maps.append((src_axis, "axis", pos, s, st, n))
         elif is_intlike(k) or isinstance(k, bool):
@@ -336,6 +337,10 @@ def np_array(ex, args, kw):
     elif isinstance(v, SymSeq):
         if hasattr(v, "as_array"):
             return v.as_array(ex)
+        probe = v.get(ex.ctx.fresh("probe"), ex) if not v.suffix else v.suffix[0]
+        if isinstance(probe, NDArray):
+            # list of equal-shaped arrays -> array of one more dimension (row i = element i)
+            return NDArray([v.length] + list(probe.shape), lambda idx, v=v: v.get(idx[0], ex).elem(idx[1:]), probe.dtype)
         return NDArray([v.length], lambda idx, v=v: v.get(idx[0]), dtype_of(dt, "int"))
     elif _is_scalar(v):
         return NDArray([], lambda idx: v, dtype_of(dt, "f8"))
